@@ -12,18 +12,24 @@ static inline uint64_t iora_cached_positive(const DnsResult *r) { (void)r; retur
 /* cache_->remove(key) (only present in a repaired DnsCache::put): erases the entry of that key */
 static inline void ExpiringCache_remove_stub(ExpiringCache *c, uint64_t key) { if (key == GKEY) c->_cache.has = false; }
 
-/* witness record: section GSEC (0..11 in declaration order of DnsResult), index GI - both arbitrary */
-unsigned GSEC; size_t GI;
+/* witness record: section GSEC (0..11 in declaration order of DnsResult), index GI - both arbitrary.
+ * G_wv / G_wttl are ghost NAMES for "the witness exists" and "its TTL": every contract binds them in its requires to exactly
+ * that (WITNESS_BOUND). Carrying the bound `min_ttl <= G_wttl` through the loops directly (instead of a chain
+ * min_12 <= min_11 <= ... <= ttl) is what makes the proof cheap (measured: chain 150 s for one clause, direct form 10 s). */
+unsigned GSEC; size_t GI; bool G_wv; uint32_t G_wttl;
 #define NSEC 12
 /* a record vector of a parsed message: each section count is a 16-bit field, the typed vectors collect from three sections */
 #define RVEC_MAX ((size_t)3 * 65535)
 
-/* loop k of calculateResultTtl runs over section k-1: the running minimum never grows, and once the loop has passed the
- * witness record it is <= that record's TTL */
+/* loop k of calculateResultTtl runs over section k-1 */
 #define TTL_LOOP(k, vec) IORA_LC( \
   __CPROVER_assigns(iora_i, min_ttl) \
-  __CPROVER_loop_invariant(iora_i <= result->vec.n && min_ttl <= __CPROVER_loop_entry(min_ttl)) \
-  __CPROVER_loop_invariant((GSEC == (k) - 1 && GI < iora_i) ==> min_ttl <= result->vec.p[GI].ttl) \
+  __CPROVER_loop_invariant(iora_i <= result->vec.n) \
+  /* once the witness record has been passed, the running minimum is <= its TTL */ \
+  __CPROVER_loop_invariant((G_wv && (GSEC < (k) - 1 || (GSEC == (k) - 1 && GI < iora_i))) ==> min_ttl <= G_wttl) \
+  /* exactness for the first record of a section (gives: nothing in any section -> sentinel; a single record -> its TTL) */ \
+  __CPROVER_loop_invariant(iora_i == 0 ==> min_ttl == __CPROVER_loop_entry(min_ttl)) \
+  __CPROVER_loop_invariant(iora_i == 1 ==> min_ttl == IORA_MIN(__CPROVER_loop_entry(min_ttl), result->vec.p[0].ttl)) \
   __CPROVER_decreases(result->vec.n - iora_i))
 #define IORA_LOOP_DnsCache_calculateResultTtl_1 TTL_LOOP(1, answers)
 #define IORA_LOOP_DnsCache_calculateResultTtl_2 TTL_LOOP(2, authority)
